@@ -60,31 +60,47 @@ Qed.
 Lemma phys_lines_header h rest : none is_nl h -> phys_lines (h ++ LF :: rest) = (h ++ [LF]) :: phys_lines rest.
 Proof. intros H. unfold phys_lines. rewrite phys_lines_aux_line by exact H. reflexivity. Qed.
 
-(* a csv file: header line, then records written by the QUOTE_MINIMAL writer, cells without line breaks *)
+(* what is dropped: after the last line the code processes the first bsize rows of the remainder when
+   more than 2**10 rows remain, and nothing of it otherwise *)
+Definition dropped_tail (bsize : nat) (s : lstate) : list row :=
+  if 1024 <? N.of_nat (length (buf s)) then skipn bsize (buf s) else buf s.
+
+(* rows that reach a processed mini-batch = accepted rows minus the dropped tail *)
+Theorem batches_seen_spec bsize s : crashed s = false ->
+  concat (batches_seen bsize s) ++ dropped_tail bsize s = accepted_rows s.
+Proof.
+  intros Hc. unfold batches_seen, dropped_tail, accepted_rows. rewrite Hc.
+  destruct (1024 <? N.of_nat (length (buf s))).
+  - rewrite concat_app. cbn [concat]. rewrite app_nil_r, <- app_assoc, firstn_skipn. reflexivity.
+  - reflexivity.
+Qed.
+
+(* a csv file: header line, then writer-style records (any field may be quoted), cells without line
+   breaks and within the reader's field size limit *)
 Theorem stream_csv src delim fw hdr bsize hline rows :
   src = CsvRaw \/ src = ObCsv -> none is_nl hline ->
-  Forall (fun r => r <> [] /\ Forall (none is_nl) r) rows ->
-  let text := hline ++ LF :: concat (map (fun r => Csv.render r ++ [LF]) rows) in
+  Forall (fun r => r <> [] /\ Forall (none is_nl) (map snd r) /\ Forall flen_ok (map snd r)) rows ->
+  let text := hline ++ LF :: concat (map (fun r => Csv.render_q r ++ [LF]) rows) in
   let s := run_loop (generic_line_parser src delim fw hdr) (length hdr) bsize text in
-  accepted_rows s = map (map Some) (filter (fun r => Nat.eqb (length r) (length hdr)) rows) /\
+  accepted_rows s = map (fun r => map Some (map snd r)) (filter (fun r => Nat.eqb (length r) (length hdr)) rows) /\
   invalid s = N.of_nat (length (filter (fun r => negb (Nat.eqb (length r) (length hdr))) rows)) /\
   crashed s = false.
 Proof.
   intros Hsrc Hh HF. cbv zeta. unfold run_loop. rewrite phys_lines_header by exact Hh. cbn [tl].
-  rewrite csv_physical_lines by (eapply Forall_impl; [|exact HF]; intros r [_ H]; exact H).
-  assert (Hmap : map (generic_line_parser src delim fw hdr) (map (fun r => Csv.render r ++ [LF]) rows)
-                 = map Row (map (map Some) rows)).
-  { rewrite !map_map. apply map_ext_in. intros r Hin. rewrite Forall_forall in HF. destruct (HF r Hin) as [Hne _].
-    unfold generic_line_parser. destruct Hsrc as [-> | ->]; rewrite roundtrip by exact Hne; reflexivity. }
+  rewrite csv_physical_lines_q by (eapply Forall_impl; [|exact HF]; intros r (_ & H & _); exact H).
+  assert (Hmap : map (generic_line_parser src delim fw hdr) (map (fun r => Csv.render_q r ++ [LF]) rows)
+                 = map Row (map (fun r => map Some (map snd r)) rows)).
+  { rewrite !map_map. apply map_ext_in. intros r Hin. rewrite Forall_forall in HF. destruct (HF r Hin) as (Hne & _ & Hl).
+    unfold generic_line_parser. destruct Hsrc as [-> | ->]; rewrite roundtrip_q_term by (auto); reflexivity. }
   destruct (loop_rows _ (length hdr) bsize _ _ loop_init Hmap eq_refl) as (Ha & Hi & Hc). cbv zeta in Ha, Hi, Hc.
   rewrite Ha, Hi, Hc. cbn [accepted_rows loop_init emitted buf concat app invalid]. rewrite N.add_0_l.
-  assert (E1 : forall l : list (list (list N)), filter (accept (length hdr)) (map (map Some) l)
-                 = map (map Some) (filter (fun r => Nat.eqb (length r) (length hdr)) l)).
-  { induction l as [|r l IHl]; [reflexivity|]. cbn [map filter]. unfold accept at 1. rewrite map_length.
+  assert (E1 : forall l : list (list (bool * list N)), filter (accept (length hdr)) (map (fun r => map Some (map snd r)) l)
+                 = map (fun r => map Some (map snd r)) (filter (fun r => Nat.eqb (length r) (length hdr)) l)).
+  { induction l as [|r l IHl]; [reflexivity|]. cbn [map filter]. unfold accept at 1. rewrite !map_length.
     destruct (Nat.eqb (length r) (length hdr)); cbn [map]; rewrite IHl; reflexivity. }
-  assert (E2 : forall l : list (list (list N)), length (rejected (length hdr) (map (map Some) l))
+  assert (E2 : forall l : list (list (bool * list N)), length (rejected (length hdr) (map (fun r => map Some (map snd r)) l))
                  = length (filter (fun r => negb (Nat.eqb (length r) (length hdr))) l)).
-  { induction l as [|r l IHl]; [reflexivity|]. unfold rejected in *. cbn [map filter]. unfold accept at 1. rewrite map_length.
+  { induction l as [|r l IHl]; [reflexivity|]. unfold rejected in *. cbn [map filter]. unfold accept at 1. rewrite !map_length.
     destruct (Nat.eqb (length r) (length hdr)); cbn [negb length]; rewrite IHl; reflexivity. }
   rewrite E1, E2. auto.
 Qed.
